@@ -31,13 +31,6 @@ func (g *vGen) yes(name string) bool {
 
 func (g *vGen) s(x string) { g.b = append(g.b, x...) }
 
-// vSym returns n symbolic bytes constrained to the character class re.
-func vSym(name string, n int, class string) string {
-	s := vString(name, n)
-	vAssume(vMatch(`^`+class+`*$`, s))
-	return s
-}
-
 const (
 	vBareClass   = `[a-c./*~+=-]`    // characters that may appear in a bare token
 	vQuotedClass = `[a-c./* \\\\'=]` // inside double quotes (backslash escapes included)
